@@ -15,15 +15,58 @@ GENS = [
 ]
 
 
+def dnc_subclass_probe(chk, extra):
+    """implementation-only (the class grammar of inst_common cannot give a spec subclass a
+    do_not_copy list that differs from its parent's): an inherited attribute listed in the
+    subclass's do_not_copy, re-defaulted or not, is carried by identity into every copy"""
+    import copy
+    from typing import Dict, List
+
+    from spec_classes import spec_class
+    n = bad = 0
+    for redefault in (True, False):
+        P = spec_class(type("P", (), {"__annotations__": {"xs": List[int], "d": Dict[str, int], "n": int, "ys": List[int]},
+                                      "xs": [1], "d": {}, "n": 0, "ys": [5],
+                                      "__module__": "verif_generated", "__qualname__": "P"}))
+        body = {"__module__": "verif_generated", "__qualname__": "Q"}
+        if redefault:
+            body["xs"] = [2]
+        Q = spec_class(do_not_copy=["xs", "d"])(type("Q", (P,), body))
+        q = Q().with_xs([7, 8, 9], _inplace=True)
+        derived = [("deepcopy", lambda: copy.deepcopy(q)), ("with_n", lambda: q.with_n(3)), ("update", lambda: q.update(n=1)),
+                   ("transform", lambda: q.transform(n=lambda v: v + 1)), ("reset_n", lambda: q.reset_n()),
+                   ("with_y", lambda: q.with_y(4)), ("without_y", lambda: q.without_y(0, _by_index=True))]
+        for name, f in derived:
+            r = f()
+            n += 1
+            ok = r is not q and r.xs is q.xs and r.d is q.d and r.ys is not q.ys
+            if not ok:
+                bad += 1
+                chk.violation("do_not_copy attribute of a spec subclass is duplicated (or a copied one shared) by %s" % name,
+                              {"kind": "dnc-subclass", "redefault": redefault, "call": name,
+                               "xs_same": r.xs is q.xs, "d_same": r.d is q.d, "ys_distinct": r.ys is not q.ys},
+                              sig={"kind": "dnc-subclass"})
+    extra["dnc_subclass_probe"] = {"cases": n, "failing": bad}
+
+
 def targeted(chk, cases, bad, extra):
     n = 260 if chk.tier == "quick" else 4000
     n_ops = 7 if chk.tier == "quick" else 10
     mine = [c02_gen.gen_case_c02(chk.rng, n_ops) for _ in range(n)]
     c02_gen.report(chk, "C02", 4 | 32, mine, extra, "targeted_histories")
+    dnc_subclass_probe(chk, extra)
     extra["rule"] = extra.get("rule", "") + "; targeted = receiver built from fresh arguments, optional in-place setup, copy-on-write helpers / deepcopy / no-op forms (update_<coll>(MISSING|EMPTY|UNCHANGED), update_<spec attr>(), identity transforms, with_<attr>(sentinel)), then in-place mutation of a result and of the receiver"
 
 
 def main(tier, replay=None):
     if replay:
+        import json
+        r = json.load(open(replay))
+        if r.get("kind") == "dnc-subclass":
+            from common import Check
+            chk, extra = Check("C02", "quick"), {}
+            dnc_subclass_probe(chk, extra)
+            print("replay:", "still failing" if extra["dnc_subclass_probe"]["failing"] else "passes now", extra)
+            return 1 if extra["dnc_subclass_probe"]["failing"] else 0
         return inst_check.replay("C02", replay, 4 | 32)
     return inst_check.run("C02", tier, 4, GENS, 160, 3000, ASSUMPTIONS, post=targeted)
